@@ -62,11 +62,24 @@ bool TemporalMetricStorage::buildMetrics(CollectorHandle *collector,
     {
       return true;
     }
+    // The interval starts where the previous reported one ended
+    auto reported = last_reported_metrics_.find(collector);
+    if (reported != last_reported_metrics_.end())
+    {
+      last_collection_ts             = reported->second.collection_ts;
+      reported->second.collection_ts = collection_ts;
+    }
+    else
+    {
+      last_reported_metrics_.insert(std::make_pair(
+          collector, LastReportedMetrics{std::unique_ptr<AttributesHashMap>(new AttributesHashMap),
+                                         collection_ts}));
+    }
     // Create MetricData directly
     MetricData metric_data;
     metric_data.instrument_descriptor   = instrument_descriptor_;
     metric_data.aggregation_temporality = AggregationTemporality::kDelta;
-    metric_data.start_ts                = sdk_start_ts;
+    metric_data.start_ts                = last_collection_ts;
     metric_data.end_ts                  = collection_ts;
 
     // Direct conversion of delta metrics to point data
